@@ -13,6 +13,7 @@ mod outputs;
 mod funcs;
 mod refimpl;
 mod xmlre;
+mod policyre;
 
 type Log = Arc<Mutex<Vec<Value>>>;
 
@@ -381,6 +382,11 @@ fn main() {
         "fn" => {
             let out = funcs::call(&args[2], &args[3..]);
             println!("{out}");
+        }
+        "policy" => {
+            // args: <file.json> = [{"type":..,"desc":..} | {"type":..,"text":..}, ..]
+            let text = std::fs::read_to_string(&args[2]).expect("read");
+            println!("{}", policyre::batch(&text));
         }
         "methods" => println!("{}", json!(S3_METHODS)),
         "xml" => {
